@@ -16,3 +16,136 @@ package forward
 //@   requires network == NetworkTCP ==> cap(buf) >= 65535
 //@   modifies elems(buf), stamped[arr(buf)], allcells(uint16)
 //@   ensures r1 == nil ==> r0 != nil
+
+// ---------------------------------------------------------------------------
+// C17: fallback and recovery of upstreams.
+
+//@ import dnsserver github.com/AdguardTeam/AdGuardDNS/internal/dnsserver
+//@ import rand golang.org/x/exp/rand
+//@ import slog log/slog
+
+//@ immutable Handler.logger, Handler.metrics, Handler.rand, Handler.activeUpstreamsMu, Handler.hcDomainTmpl, Handler.upstreams, Handler.fallbacks, Handler.hcBackoff, upstreamStatus.upstream
+
+// The exchanges of the current call, in order: event k went to exUps[k] and
+// failed iff exFailed[k]; a reply with rcode exRcode[k] was present iff exHasResp[k].
+//@ ghost exCount int
+//@ ghost exUps map[int]Upstream
+//@ ghost exFailed map[int]bool
+//@ ghost exHasResp map[int]bool
+//@ ghost exRcode map[int]int
+//@ ghost exResp map[int]*dns.Msg
+//@ interface Upstream method Exchange
+//@   modifies exCount, exUps[exCount], exFailed[exCount], exHasResp[exCount], exRcode[exCount], exResp[exCount]
+//@   ensures exCount == old(exCount) + 1 && exUps[old(exCount)] == this && exFailed[old(exCount)] == (err != nil) &&
+//@           exHasResp[old(exCount)] == (resp != nil) && exResp[old(exCount)] == resp && (resp != nil ==> exRcode[old(exCount)] == resp.Rcode)
+//@ interface Upstream method String
+//@   modifies nothing
+//@ interface MetricsListener method *
+//@   modifies nothing
+//@ func annotate
+//@   modifies nothing
+//@   ensures (result == nil) == (err == nil)
+//@ func (*rand.Rand).Intn
+//@   requires n > 0
+//@   ensures 0 <= result && result < n
+//@ pure (*rand.Rand).Uint64
+
+//@ lock Handler self.activeUpstreamsMu
+//@   protects self.activeUpstreams
+//@   invariant forall i int :: 0 <= i && i < len(self.activeUpstreams) ==> self.activeUpstreams[i] != nil
+
+//@ pred HD(h *Handler) = h != nil && h.metrics != nil && h.rand != nil && h.activeUpstreamsMu != nil && h.logger != nil &&
+//@      (forall i int :: 0 <= i && i < len(h.fallbacks) ==> h.fallbacks[i] != nil) &&
+//@      (forall i int :: 0 <= i && i < len(h.upstreams) ==> h.upstreams[i] != nil && h.upstreams[i].upstream != nil)
+
+//@ ghost lastPicked Upstream
+//@ func (*Handler).pickActiveUpstream
+//@   property C17
+//@   requires HD(h)
+//@   modifies lastPicked
+//@   ghostset lastPicked = u
+//@   ensures lastPicked == u
+//@   ensures only-from-the-healthy-set: u != nil ==> (exists i int :: 0 <= i && i < locked(len(h.activeUpstreams)) && locked(h.activeUpstreams[i]) == u)
+//@   ensures none-healthy: u == nil <==> locked(len(h.activeUpstreams)) == 0
+
+//@ func (*Handler).exchange
+//@   property C17
+//@   requires HD(h) && u != nil
+//@   modifies exCount, exUps[exCount], exFailed[exCount], exHasResp[exCount], exRcode[exCount], exResp[exCount]
+//@   ensures exCount == old(exCount) + 1 && exUps[old(exCount)] == u && exFailed[old(exCount)] == (err != nil) && exResp[old(exCount)] == resp
+
+//@ func (*Handler).ServeDNS
+//@   property C17
+//@   requires HD(h) && rw != nil && req != nil
+//@   modifies lastPicked, exCount, exUps, exFailed, exHasResp, exRcode, exResp, dns.Msg.*, dns.OPT.*, allelems(dns.RR), allelems(dns.EDNS0), allelems(byte),
+//@            dns.EDNS0_PADDING.Padding, dns.EDNS0_TCP_KEEPALIVE.Timeout, truncSize, writes, wroteReq, wroteResp, wroteId, wroteRcode, wroteNQ, wroteQ
+//@   ensures at-most-two-tries: exCount <= old(exCount) + 2
+//@   ensures main-first: lastPicked != nil ==> exCount >= old(exCount) + 1 && exUps[old(exCount)] == lastPicked
+//@   ensures fallback-only-after-main-failed: lastPicked != nil && exCount == old(exCount) + 2 ==> exFailed[old(exCount)] &&
+//@             (exists i int :: 0 <= i && i < len(h.fallbacks) && h.fallbacks[i] == exUps[old(exCount) + 1])
+//@   ensures no-healthy-main-goes-to-fallback: lastPicked == nil ==> exCount <= old(exCount) + 1 &&
+//@             (exCount == old(exCount) + 1 ==> (exists i int :: 0 <= i && i < len(h.fallbacks) && h.fallbacks[i] == exUps[old(exCount)]))
+//@   ensures without-fallbacks-single-try: len(h.fallbacks) == 0 ==> exCount <= old(exCount) + 1
+//@   ensures answered-by-the-last-try: err == nil ==> exCount > old(exCount) && !exFailed[exCount - 1] && exResp[exCount - 1] != nil &&
+//@             writes[rw] == old(writes[rw]) + 1 && wroteResp[rw] == exResp[exCount - 1]
+//@   ensures failure-means-servfail-upstairs: exCount > old(exCount) && exFailed[exCount - 1] ==> err != nil
+
+//@ func checkUpstream
+//@   property C17
+//@   requires ups != nil && req != nil
+//@   modifies exCount, exUps[exCount], exFailed[exCount], exHasResp[exCount], exRcode[exCount], exResp[exCount]
+//@   ensures exCount == old(exCount) + 1 && exUps[old(exCount)] == ups
+//@   ensures healthy-iff-noerror-reply: (err == nil) == (!exFailed[old(exCount)] && exHasResp[old(exCount)] && exRcode[old(exCount)] == 0)
+
+//@ ghost hcInBackoff map[*upstreamStatus]bool
+//@ ghost hcDown map[*upstreamStatus]bool
+//@ func (*Handler).healthcheckUpstream
+//@   property C17
+//@   requires h != nil && h.metrics != nil && h.logger != nil && upsStatus != nil && upsStatus.upstream != nil && req != nil
+//@   modifies upsStatus.lastFailedHealthcheck, hcInBackoff[upsStatus], hcDown[upsStatus], exCount, exUps[exCount], exFailed[exCount], exHasResp[exCount], exRcode[exCount], exResp[exCount]
+//@   ghostset hcInBackoff[upsStatus] = inBackoff
+//@   ghostset hcDown[upsStatus] = (err != nil)
+//@   ensures hcInBackoff[upsStatus] == inBackoff && hcDown[upsStatus] == (err != nil)
+//@   ensures no-probe-during-backoff: sinceNs(old(upsStatus.lastFailedHealthcheck)) < h.hcBackoff ==> inBackoff && err == nil &&
+//@             exCount == old(exCount) && upsStatus.lastFailedHealthcheck == old(upsStatus.lastFailedHealthcheck)
+//@   ensures probed-once-otherwise: sinceNs(old(upsStatus.lastFailedHealthcheck)) >= h.hcBackoff ==> !inBackoff && exCount == old(exCount) + 1 &&
+//@             exUps[old(exCount)] == upsStatus.upstream
+//@   ensures recovery-clears-the-mark: !inBackoff && err == nil ==> upsStatus.lastFailedHealthcheck == zero(time.Time)
+
+// healthcheck: the set of upstreams used for queries is replaced, under the
+// write lock, by upstreams that were probed in this round and answered; an
+// upstream in backoff or with a failed probe is not in it.
+//@ pred distinctStatuses(h *Handler) = forall i int, j int :: 0 <= i && i < j && j < len(h.upstreams) ==> h.upstreams[i] != h.upstreams[j]
+//@ func newProbeReq
+//@   modifies nothing
+//@   ensures req != nil
+//@ func (*Handler).healthcheck
+//@   property C17
+//@   requires HD(h) && distinctStatuses(h)
+//@   modifies h.activeUpstreams, upstreamStatus.lastFailedHealthcheck, hcInBackoff, hcDown, exCount, exUps, exFailed, exHasResp, exRcode, exResp
+//@   ensures not-used-while-in-backoff-or-down: forall j int :: 0 <= j && j < len(h.activeUpstreams) ==>
+//@             (exists i int :: 0 <= i && i < len(h.upstreams) && h.upstreams[i].upstream == h.activeUpstreams[j] &&
+//@               !hcInBackoff[h.upstreams[i]] && !hcDown[h.upstreams[i]])
+//@   loop 1 invariant -1 <= #i && #i < len(h.upstreams) && (arr(activeUps) == 0 || fresh(activeUps)) && (arr(errs) == 0 || fresh(errs))
+//@   loop 1 invariant h != nil && h.metrics != nil && h.rand != nil && h.activeUpstreamsMu != nil && h.logger != nil
+//@   loop 1 invariant forall i int :: 0 <= i && i < len(h.upstreams) ==> h.upstreams[i] != nil && h.upstreams[i].upstream != nil
+//@   loop 1 invariant forall j int :: 0 <= j && j < len(activeUps) ==>
+//@             (exists i int :: 0 <= i && i <= #i && h.upstreams[i].upstream == activeUps[j] && activeUps[j] != nil &&
+//@               !hcInBackoff[h.upstreams[i]] && !hcDown[h.upstreams[i]])
+//@   loop 1 invariant forall i int :: #i < i && i < len(h.upstreams) ==> hcInBackoff[h.upstreams[i]] == old(hcInBackoff[h.upstreams[i]]) && hcDown[h.upstreams[i]] == old(hcDown[h.upstreams[i]])
+
+// refresh: without fallbacks the main upstreams are never taken out of rotation.
+//@ func (*Handler).refresh
+//@   property C17
+//@   requires HD(h) && distinctStatuses(h)
+//@   modifies h.activeUpstreams, upstreamStatus.lastFailedHealthcheck, hcInBackoff, hcDown, exCount, exUps, exFailed, exHasResp, exRcode, exResp
+//@   loop 1 invariant -1 <= #i && #i < len(h.fallbacks)
+//@   ensures never-out-of-rotation-without-fallbacks: len(h.fallbacks) == 0 ==> h.activeUpstreams == old(h.activeUpstreams) && exCount == old(exCount)
+
+// An upstream reply is accepted only if its ID, question name and type match
+// the query.
+//@ func validatePlainResponse
+//@   property C17
+//@   requires req != nil && resp != nil && len(req.Question) >= 1
+//@   ensures accepted-iff-matching: (err == nil) == (req.Id == resp.Id && len(resp.Question) == 1 &&
+//@             req.Question[0].Qtype == resp.Question[0].Qtype && equalFold(req.Question[0].Name, resp.Question[0].Name))
